@@ -25,13 +25,13 @@ CHECKS = {
    note="Storage leg drives the API as SecondaryTransaction::scan does (INT key = storage column 0, scanned first).", ref="6 C13"),
  "C18": dict(cat="fault_enumeration", tech="fault injection on files (bit flips, overwrites, truncations) + differential monitor against the pristine answers; thorough tier adds sanitizer overlays of the same workload (ASan), reports with risinglight frames are violations",
    text="Every sampled (thorough: every) single-bit flip, byte overwrite and truncation of every .col/.idx file of a CRC32 database is applied to a copy; the copy is opened in a fresh process, every table read 3 times, a compaction pass runs, tables are read again; each read must fail or return exactly the pristine rows and untouched tables must stay readable.",
-   note="One fixed database shape (2 tables, 5 row-sets, 64-byte blocks). Mutations of one file at a time. DV files and manifest belong to C04.", ref="6 C18"),
+   note="One fixed database shape (2 tables, 5 row-sets, 64-byte blocks), opened with a row-set target under which a compaction pass selects nothing and with one under which it merges every table (and reads the damaged row-set). Mutations of one file at a time. DV files and manifest belong to C04.", ref="6 C18"),
  "C20": dict(cat="exploration", tech="round-trip runtime monitor: COPY TO then COPY FROM, multiset comparison of typed cells",
    text="Random column type lists (12 types), contents with NULLs and delimiter/quote/newline characters, and CSV options; the re-imported table must equal the exported one.",
-   note="Decimals compared by value. Empty strings and HEADER only through the sentinels of their known findings.", ref="6 C20"),
+   note="Decimals compared by value. Empty strings, HEADER and DECIMAL values of a larger scale than declared only through the sentinels of their known findings.", ref="6 C20"),
  "C04": dict(cat="fault_enumeration", tech="crash-point enumeration through persistence hooks (directory snapshots + torn prefixes) with recovery in fresh processes vs a model, new statements and a second open of every recovered state; thorough tier adds sanitizer overlays of the same workload (ASan), reports with risinglight frames are violations",
    text="Every persistence step executed by a workload is a crash state (directory copy taken inside the hook), plus torn variants of the file/manifest record in flight; each is recovered by a fresh process and must equal model(acked) or model(acked+interrupted); the interrupted statement is retried, new statements must succeed, and crashes during the recovery itself must recover to the same state.",
-   note="Process death only (no loss of un-fsynced page cache). The hook runs on the thread performing the step, so the copy is exactly what a kill at that point leaves.", ref="6 C04"),
+   note="Process death only (no loss of un-fsynced page cache). The hook copies the directory on the only runtime thread; a file operation already handed to the blocking pool (a vacuum unlink) may complete during the copy, entries it removes are skipped (a crash state of that unlink). The torn-write base is the live manifest length reported by the hook and must start a record, else inconclusive.", ref="6 C04"),
  "C15": dict(cat="fault_enumeration", tech="fault injection at the per-operator output hook (error|panic at chunk k / end of stream) + differential against the fault-free run",
    text="For every operator of the executed plan (observed through the hook) errors and panics are injected at first/middle/last chunk and at end-of-stream, each in its own execution; the statement must fail, or return exactly the fault-free rows; failed INSERT..SELECT / DELETE must leave the target unchanged. Memory and disk engines, current- and multi-thread runtimes.",
    note="Not injected at the output of the INSERT/DELETE operator itself (post-commit). Benign = fired but result identical.", ref="6 C15"),
@@ -49,22 +49,22 @@ CHECKS = {
    note="Reference = unoptimized execution (no reference for subqueries in leg A). Non-executable intermediate forms are inconclusive. Derived-table select items are kept non-constant (known finding with sentinel).", ref="6 C01"),
  "C11": dict(cat="exploration", tech="differential runtime monitoring of hand-built physical plans through executor::build + independent Python nested-loop/group-by reference",
    text="For the same inputs, nested-loop / hash / merge join of every join type, simple / hash / sort aggregation and limit-over-order vs top-N are executed by the real executor on tables with chosen chunking, NULL and duplicate keys, INT vs BIGINT keys, empty sides; all implementations must agree with each other and with the reference.",
-   note="Plans are built through the public Expr enum; hash/merge join of inner/outer type only with a true residual (executor contract).", ref="6 C11"),
+   note="Plans are built through the public Expr enum; hash/merge join of inner/outer type only with a true residual (executor contract). first/last are compared between agg and hashagg([]) only (same input order, no reference).", ref="6 C11"),
  "C14": dict(cat="exploration", tech="kernel-level runtime monitor against an independent scalar interpreter (arbitrary raw bits under NULL) + metamorphic row-isolation monitor over every array kernel (row in a batch vs the row alone) + optimizer on/off differential for constant folding + predicate leg vs a Python 3VL evaluator + filter-position monitor (WHERE e / WHERE NOT e vs the projected value of e); thorough tier adds sanitizer overlays of the same workload (ASan + Miri), reports with risinglight frames are violations",
    text="Array kernels (arithmetic, comparison, AND/OR/NOT, ||, unary minus, CASE selection, integer casts) over all accepted operand type combinations on batches of 0..200 rows with NULL slots carrying arbitrary raw bits are judged row by row against a scalar SQL interpreter; overflow must be an error, x/0 NULL, a row alone must equal the row in its batch. Constant expressions: folded (optimizer on) vs run-time (off).",
    note="NaN/inf not used in comparisons of the scalar-interpreter leg. LIKE / SUBSTRING / EXTRACT / REPLACE / REPEAT / casts other than integer ones / vector distances are decided by the row-isolation leg only (batch-independence, not absolute semantics).", ref="6 C14"),
  "C19": dict(cat="exploration", tech="law-checking runtime monitor over value pools + cross-implementation coherence through SQL on both engines; thorough tier adds sanitizer overlays of the same workload (ASan + Miri), reports with risinglight frames are violations",
    text="Equality/order/hash laws over all pairs and triples of boundary+random pools of 13 types, comparison kernels vs DataValue::cmp, print->parse through the string cast and the CSV field parser; SQL leg: ORDER BY, <, join equality, GROUP BY, DISTINCT, MIN/MAX must induce the same relations on stored values on both engines.",
-   note="Calendar values from SQL-reachable ranges. Cells compared as printed (decimals by value, -0.0 = 0.0).", ref="6 C19"),
+   note="Calendar values from SQL-reachable ranges, plus every value the type's own parser makes from ~95 literal texts beyond the pools (rejected texts denote no value). Cells compared as printed (decimals by value, -0.0 = 0.0).", ref="6 C19"),
  "C02": dict(cat="exploration", tech="differential runtime monitoring against an independent SQL implementation (SQLite) on the common dialect subset",
    text="Generated queries of the core relational subset over small-domain tables with NULLs and duplicates run on risinglight (memory / disk, optimizer on) and on SQLite with the same data; multisets (key sequences under ORDER BY) must agree. Disagreements are classified by re-running with the optimizer off and bisecting rules.",
    note="Only constructs where SQLite and the standard agree (see assumptions in the evidence). NOT IN subqueries only through the sentinel of their known finding. Failing/rejected statements are not wrong answers.", ref="6 C02"),
  "C16": dict(cat="exploration", tech="runtime type monitor (static plan types vs runtime array variants) + INSERT round-trip monitor with a value-equality oracle",
    text="Leg A: for executed queries the runtime array variant of every result column and every chunk width are compared with the static types the planner derives on the live catalog. Leg B: INSERTs with implicit conversions (VALUES, column subsets, INSERT..SELECT) into columns of 8 types on both engines are read back: declared variant, NULL only if nullable, value equal to the inserted one, otherwise the statement must have failed.",
-   note="A rejected INSERT is always acceptable. Lossy float->integer and number->boolean conversions are known findings with sentinels.", ref="6 C16"),
+   note="A rejected INSERT is always acceptable. Lossy float->integer and number->boolean conversions are known findings with sentinels. Temporal/binary types (TIMESTAMP, TIMESTAMPTZ, DATE, INTERVAL, BLOB) are driven through casts and INSERT..SELECT and judged by array variant only.", ref="6 C16"),
  "C17": dict(cat="exploration", tech="plan well-formedness monitor over the optimized RecExpr + build/execute under catch_unwind in a disposable runner; termination decided on the runner's own CPU time (300 CPU-seconds, load-independent)",
    text="Generated statements with every generator feature on are bound, optimized and inspected: no apply/in/exists/max1row left, consistent join key lists, residuals only where the executor allows, same output types as the bound plan, and building + running the plan must not panic; optimizer panics are violations, a watchdog is inconclusive.",
-   note="The walker is the harness's own (not the repo's resolve_column_index). Execution errors (type, overflow) are not planning defects.", ref="6 C17"),
+   note="The walker is the harness's own (not the repo's resolve_column_index). Execution errors (type, overflow) are not planning defects. A quarter of the cases add an extreme-statistics leg (row estimates 2e9..u32::MAX, costs overflowing to infinity around a derived table that holds a subquery), reported under signatures of its own.", ref="6 C17"),
 }
 
 def main():
